@@ -39,7 +39,7 @@ def relayout(stmts, r):
 
 def make_jobs(tier, seed):
     k = 30 if tier == 'quick' else 240
-    jobs = [('ex', seed)]
+    jobs = [('ex', seed, tier)]
     jobs += [('j', seed * 1000003 + i, 4, 5 if tier == 'quick' else 8) for i in range(k)]
     return jobs
 
@@ -72,7 +72,71 @@ def compare(acc, stmts, r, nvar, origin):
     acc.sample({'canonical': base[:300], 'variant': text[:400]})
 
 
+def ast_from_parse(parse):
+    """Generator AST of a parsed grammar (for re-laying-out the bundled examples): inside a word the parser has
+    turned nested juxtapositions into plain sequences; they are printed as juxtapositions again."""
+    from .. import treecmp
+
+    def fix(e, in_word):
+        k = e[0]
+        if k == 'word':
+            return ('word', tuple(fix(c, True) for c in e[1]))
+        if k == 'seq':
+            items = tuple(fix(c, in_word) for c in e[1])
+            return ('word', items) if in_word else ('seq', items)
+        if k in ('alt', 'fb'):
+            return (k, tuple(fix(c, in_word) for c in e[1]))
+        if k in ('opt', 'many'):
+            return (k, fix(e[1], in_word))
+        if k == 'desc':
+            return ('desc', fix(e[1], in_word), e[2])
+        return e
+    out = []
+    for st in treecmp.parsed_statements(parse):
+        if st[0] == 'call':
+            out.append(('call', st[1], fix(st[2], False)))
+        else:
+            out.append(('def', st[1], st[2], fix(st[3], False)))
+    return out
+
+
 def run_job(job, acc):
+    if job[0] == 'ex':
+        # bundled examples and the README grammars, re-laid-out through their parsed trees
+        from .. import probe
+        r0 = random.Random(job[1])
+        P = probe.Probe()
+        try:
+            exdir = os.path.join(paths.REPO, 'examples')
+            for name in sorted(os.listdir(exdir)):
+                with open(os.path.join(exdir, name)) as f:
+                    src = f.read()
+                ans = P.ask('x', 'bash', 'parse', src)
+                if 'parse' not in ans:
+                    continue
+                stmts = ast_from_parse(ans['parse'])
+                ref = {}
+                for sh in common.SHELLS:
+                    rc, out, err = comp.compile_text(src, sh)
+                    acc.evals += 1
+                    if rc == 0:
+                        ref[sh] = out
+                for v in range(2 if job[2] == 'quick' else 4):
+                    text = relayout(stmts, r0) if v else gast.print_grammar(stmts)[0]
+                    acc.seen(text)
+                    for sh, want in ref.items():
+                        rc, out, err = comp.compile_text(text, sh)
+                        acc.evals += 1
+                        acc.count('example_variant_compilations')
+                        if rc != 0 or out != want:
+                            from .c15 import first_diff
+                            acc.violation({'sig': 'relayout-changes-output' if rc == 0 else 'relayout-rejected',
+                                           'shell': sh, 'grammar': src[:2000], 'variant': text[:3000],
+                                           'observed': first_diff(want, out) if rc == 0 else err.decode('utf-8', 'replace')[:500],
+                                           'origin': 'example %s variant %d' % (name, v)})
+                            break
+        finally:
+            P.close()
     if job[0] == 'ex':
         # the bundled examples: only blank-level re-layout is possible without an AST; covered by
         # appending comments / blank lines / form feeds between statements
